@@ -637,6 +637,9 @@ func (e *Engine) freshOfType(st *State, t types.Type, name string) Value {
 
 func (e *Engine) applyContract(st *State, fr *Frame, fc *FnContract, args []Value, pos token.Pos) []Value {
 	checks := st.PureDepth == 0 && !fr.Pure
+	if fc.B.Assumed {
+		e.UsedAssumed[fc.Key] = true
+	}
 	// normalise arguments
 	nargs := make([]Value, len(args))
 	for i, a := range args {
